@@ -314,9 +314,13 @@ var cacheDocs = []string{
 	"<mjml><mj-body><mj-section><mj-column><mj-button href=\"u\"><b>Buy</b> <i>now</i></mj-button><mj-navbar><mj-navbar-link href=\"/a\"><span>A</span>\n<span>B</span></mj-navbar-link></mj-navbar>" +
 		"<mj-social><mj-social-element name=\"facebook\" href=\"h\"><b>x</b> <b>y</b></mj-social-element></mj-social><mj-accordion><mj-accordion-element><mj-accordion-title><i>T</i> <i>U</i></mj-accordion-title>" +
 		"<mj-accordion-text><span>one</span>\n  <span>two</span></mj-accordion-text></mj-accordion-element></mj-accordion></mj-column></mj-section></mj-body></mjml>",
+	// invalid attributes on HEAD elements (validation happens while the components are built: a cached tree whose head components
+	// are kept skips it from the second compilation on)
+	"<mjml><mj-head><mj-font name=\"F\" href=\"https://f.example/f.css\" weight=\"700\"/><mj-style media=\"screen\">.a{color:red}</mj-style><mj-title lang=\"en\">T</mj-title></mj-head>" +
+		"<mj-body><mj-section><mj-column><mj-text font-family=\"F\">head-invalid</mj-text></mj-column></mj-section></mj-body></mjml>",
 }
 
-const cacheOkBits = "1101111111111"
+const cacheOkBits = "11011111111111"
 
 // headReadingDoc: index of the document whose head the renderer reads while rendering
 const headReadingDoc = 8
@@ -355,7 +359,7 @@ func (h cacheHist) all() []string { return append(append([]string{}, h.prefix...
 // compareCache runs one history on the model and on the implementation.
 func compareCache(drv *DriverPool, h cacheHist, res *Result, prop string, checkC14 bool) {
 	ops := h.all()
-	hs := "0,1,2,3,4,5,6,7,8,9,10,11,12"
+	hs := "0,1,2,3,4,5,6,7,8,9,10,11,12,13"
 	if h.hashes != nil {
 		var p []string
 		for _, x := range h.hashes {
@@ -397,7 +401,7 @@ func compareCache(drv *DriverPool, h cacheHist, res *Result, prop string, checkC
 	res.Programs++
 	res.DisagreementsChecked += len(ops)
 	res.mu.Unlock()
-	in := map[string]interface{}{"ops": ops, "hashes": h.hashes, "docs": "cacheDocs (A, B, unparsable, invalid-attribute, same behind two blank lines, A + trailing whitespace, raw content over several lines with LF / with CRLF line ends, head-reading document, three documents differing only in bytes that are not valid UTF-8 / the replacement character, inline content with white space only between inline elements)"}
+	in := map[string]interface{}{"ops": ops, "hashes": h.hashes, "docs": "cacheDocs (A, B, unparsable, invalid-attribute, same behind two blank lines, A + trailing whitespace, raw content over several lines with LF / with CRLF line ends, head-reading document, three documents differing only in bytes that are not valid UTF-8 / the replacement character, inline content with white space only between inline elements, invalid attributes on head elements)"}
 	if crash != "" || len(obs) != len(ops) {
 		// a crash is an implementation failure: no configuration or history may take the process down (C14/C13)
 		res.Violate(Violation{Sig: "process-crash|" + canonHist(h), Kind: "history", What: "cache history crashed or hung the process: " + crash, Input: in})
@@ -605,7 +609,7 @@ func cacheHistories(tier string, seed int64, withConfigs bool) []cacheHist {
 			if fast {
 				o = r.Pick(append(falpha, "rc0", "rc1", "rc3"))
 			} else {
-				o = r.Pick(append(alpha, "rc0", "rc1", "rc0", "rc8", "rc8", "ru8", "rcd0", "rcd8", "rud0", "rcd1", "rc6", "rc7", "rc7", "ru6", "rc9", "rc10", "rc11", "rc12", "rc12"))
+				o = r.Pick(append(alpha, "rc0", "rc1", "rc0", "rc8", "rc8", "ru8", "rcd0", "rcd8", "rud0", "rcd1", "rc6", "rc7", "rc7", "ru6", "rc9", "rc10", "rc11", "rc12", "rc12", "rc13", "rc13"))
 			}
 			h.ops = append(h.ops, o)
 			if fast && o != "s" {
@@ -736,13 +740,14 @@ func runCacheProp(prop string) runFn {
 			for _, ops := range [][]string{{"rc8", "rc8"}, {"rc8", "rc8", "rc8"}, {"ru8", "rc8", "rc8", "ru8"}, {"rc8", "rc0", "rc8", "rc3", "rc8"}, {"rc8", "s", "rc8", "rc8"},
 				{"rc6", "rc7", "rc6", "rc7"}, {"rc7", "rc6"}, {"rc6", "ru7", "rc7", "rc6"}, {"rc7", "s", "rc6", "rc7"},
 				{"rc9", "rc10", "rc9", "rc10"}, {"rc10", "rc9", "rc11", "rc10"}, {"rc11", "rc9", "ru10", "rc10", "rc11"}, {"rc9", "s", "rc10", "rc11", "rc9"},
-				{"rc12", "rc12", "ru12", "rc12"}, {"ru12", "rc12", "s", "rc12"}, {"rcd12", "rc12", "rcd12"}} {
+				{"rc12", "rc12", "ru12", "rc12"}, {"ru12", "rc12", "s", "rc12"}, {"rcd12", "rc12", "rcd12"},
+				{"rc13", "rc13", "rc13", "ru13"}, {"ru13", "rc13", "rc13", "s", "rc13"}, {"rcd13", "rc13", "rc13"}} {
 				hs = append(hs, cacheHist{ops: ops})
 			}
 			// forced hash collisions: the recorded finding C13-F1, and near misses that must not collide
 			if prop == "C13" {
-				hs = append(hs, cacheHist{ops: []string{"rc0", "rc1"}, hashes: []uint64{7, 7, 8, 9, 10, 11, 12, 13, 14, 15, 16, 17, 18}})
-				hs = append(hs, cacheHist{ops: []string{"rc0", "rc1", "rc0"}, hashes: []uint64{7, 8, 9, 10, 11, 12, 13, 14, 15, 16, 17, 18, 19}})
+				hs = append(hs, cacheHist{ops: []string{"rc0", "rc1"}, hashes: []uint64{7, 7, 8, 9, 10, 11, 12, 13, 14, 15, 16, 17, 18, 19, 20}})
+				hs = append(hs, cacheHist{ops: []string{"rc0", "rc1", "rc0"}, hashes: []uint64{7, 8, 9, 10, 11, 12, 13, 14, 15, 16, 17, 18, 19, 20}})
 			}
 		}
 		res.Exhaustive = false
